@@ -371,6 +371,15 @@ class Parser:
         return None
 
     def parse(self, rule: str, call_invalid_rules: bool = False) -> ast.AST | Any | None:
+        try:
+            return self._parse(rule, call_invalid_rules)
+        except RecursionError:
+            # rule methods recurse once per nesting level: report input that is too deeply nested as a syntax error
+            last_token = self._tokenizer.diagnose()
+            self.raise_raw_syntax_error("too many nested constructs", last_token.start, last_token.end)
+            return None
+
+    def _parse(self, rule: str, call_invalid_rules: bool = False) -> ast.AST | Any | None:
         self.call_invalid_rules = call_invalid_rules
         res = getattr(self, rule)()
 
